@@ -342,4 +342,10 @@ def smoothRivlenModel (ds usMain : Array Nat) (rivlen : Array Rat) (minLen : Rat
     (nd : Rat) : Array Rat × Bool :=
   (List.range rivlen.size).foldl (smoothStep ds usMain nd minLen (maxWindow / 2)) (rivlen, true)
 
+/-- hypothesis `hcov` of the model = oracle theorems (`fill_down_eq_spec`, `estModel_eq_spec`,
+`river_slope_eq_spec`): the cell order holds every cell of the network -/
+def coversNet_c14 (ds : Array Nat) (seq : List Nat) : Bool :=
+  let seen := seq.foldl (fun a i => a.setIfInBounds i true) (Array.replicate ds.size false)
+  (List.range ds.size).all fun c => !isValid ds c || seen[c]!
+
 end Pf
